@@ -342,7 +342,7 @@ func checkC19(c PrepCase, o *Obs) error {
 			if c.MT == 8 {
 				continue
 			}
-			st.tr.SetWriteFault(&xport.WriteFault{K: 1, Kind: []string{xport.FaultError, xport.FaultShort, xport.FaultTimeout}[i%3]}) // operation 0 is the deadline call, 1 the Write
+			st.tr.SetWriteFault(&xport.WriteFault{NextWrite: true, Kind: []string{xport.FaultError, xport.FaultShort, xport.FaultTimeout}[i%3]}) // the Write itself, however many deadline calls precede it
 			if err := st.conn.WritePreparedMessage(pm); err == nil {
 				return fmt.Errorf("conn %d: the transport failed during a prepared send, WritePreparedMessage returned nil", i)
 			}
